@@ -58,6 +58,34 @@ def mk_wallet(p, be, master, testnet, cls=None):
     raise AnalysisError('mk_wallet', 'BaseWallet(<node>, <network>) does not evaluate to one object: %s' % T.show(v, maxdepth=4))
 
 
+def call_on(ev, obj, qual, kwargs=None, facts=None):
+    """Call method `qual` on the object term; returns (value, the receiver as the call left it).  A method that stores
+    on its receiver (a cache, a remembered form) hands the modified object back, so that sequences of calls on one
+    object can be evaluated."""
+    fi = ev.p.get_function(qual)
+    ev._param_mut = {}
+    v, f = ev.call_function(qual, [obj], dict(kwargs or {}), facts=facts)
+    pm = getattr(ev, '_param_mut', None) or {}
+    after = pm.get(fi.params[0], obj) if getattr(ev, '_param_mut_fi', None) is fi else obj
+    return v, after
+
+
+def check_history_free(ob, ev, obj, calls, what, where):
+    """Every call in `calls` [(label, qualified method, kwargs)] gives, on the object as ANY other call of the list left
+    it, the same value as on the fresh object (results do not depend on what was asked of the object before)."""
+    fresh = {}
+    for lab, q, kw in calls:
+        fresh[lab], _ = call_on(ev, obj, q, kw)
+    for lab1, q1, kw1 in calls:
+        _, obj1 = call_on(ev, obj, q1, kw1)
+        if obj1 == obj:
+            ob.require(True, '%s: %s leaves the object unchanged' % (what, lab1), where)
+            continue
+        for lab2, q2, kw2 in calls:
+            v2, _ = call_on(ev, obj1, q2, kw2)
+            same_term(ob, v2, fresh[lab2], '%s: %s after %s gives what it gives on a fresh object' % (what, lab2, lab1), where)
+
+
 def attr_of(ev, v, name, facts=None):
     """Attribute read through the evaluator (properties are evaluated)."""
     return ev.getattr(v, name, _dummy_frame(ev._with_domain(facts)))
@@ -100,18 +128,70 @@ def same_pub(ob, ev, found, P, what, where=None, facts=None):
     return ok
 
 
+def same_node(ob, ev, found, cls, what, where=None, facts=None, prv=None, pub=None, chain=None, depth=None, index=None,
+              testnet=None, parent_fpr=None):
+    """Observational equality of a node: its class and what its API returns (secret, public key encoding, chain code,
+    depth, child number, network, parent fingerprint).  Field layout, caches and bookkeeping are not compared."""
+    ok = True
+    base = Facts(facts.items if isinstance(facts, Facts) else (facts or ()))
+    nl = normal_leaves(found)
+    ok &= bool(ob.require(len(nl) >= 1, what + ': a node is returned', where))
+    for cs, leaf in nl:
+        fx = Facts(closure(list(base) + list(cs)))
+        ok &= bool(ob.require(T.tag(leaf) == 'obj' and leaf[1] == cls, what + ': a %s object' % cls.split('.')[-1], where,
+                              found=T.show(leaf, maxdepth=2)))
+        if T.tag(leaf) != 'obj':
+            continue
+        if prv is not None:
+            pk, _ = ev.call_function('bip32.PrvKeyNode.private_key', [leaf], facts=fx)
+            b, _ = ev.call_function('keys.PrivateKey.__bytes__', [pk], facts=fx)
+            ok &= bool(same_term(ob, b, prv, what + ': private key', where))
+        if pub is not None:
+            K = attr_of(ev, leaf, 'public_key', fx)
+            ok &= bool(same_term(ob, pub_sec(ev, K, True, fx), T.sec(pub, T.TRUE), what + ': public key', where))
+        for name, exp in (('chain_code', chain), ('depth', depth), ('index', index), ('testnet', testnet)):
+            if exp is not None:
+                ok &= bool(same_term(ob, attr_of(ev, leaf, name, fx), exp, what + ': ' + name, where))
+        if parent_fpr is not None:
+            v, _ = ev.call_function('bip32.PubKeyNode.parent_fingerprint', [leaf], facts=fx)
+            ok &= bool(same_term(ob, v, parent_fpr, what + ': parent fingerprint', where))
+    return ok
+
+
+PROGRAM = None
+_NODE_CACHE = {}
+
+
 def node_term(cls, key, chain=None, depth=None, index=None, parent=T.NONE, testnet=None, ppf=T.NONE, tagname=''):
-    return T.obj(cls, dict(
+    """Symbolic node.  With a program at hand the object is built by the node class's own constructor, so that it has
+    whatever fields (slots, caches, bookkeeping) the class has today; a parsed node gets its parsed parent fingerprint
+    the way _parse sets it (attribute assignment after construction)."""
+    args = dict(
         key=key,
         chain_code=chain if chain is not None else S('c' + tagname, type='bytes', len=32),
         depth=depth if depth is not None else S('depth' + tagname, type='int'),
         index=index if index is not None else S('pindex' + tagname, type='int'),
         parent=parent,
-        parsed_parent_fingerprint=ppf,
-        parsed_version=T.NONE,
         testnet=testnet if testnet is not None else S('testnet', type='bool'),
-        children=T.lst([]),
-    ))
+    )
+    if PROGRAM is not None:
+        ck = (cls, tuple(sorted(args.items())), ppf)
+        if ck in _NODE_CACHE:
+            return _NODE_CACHE[ck]
+        ev = Evaluator(PROGRAM, 'ecdsa')
+        v, _ = ev.construct(cls, [], dict(args))
+        nl = distinct_normal_leaves(v)
+        if len(nl) == 1 and T.tag(nl[0]) == 'obj' and set(args) <= set(T.obj_fields(nl[0])):
+            node = nl[0]
+            if ppf != T.NONE:
+                if 'parsed_parent_fingerprint' not in T.obj_fields(node):
+                    raise AnalysisError('node_term', 'node objects no longer have a parsed_parent_fingerprint field')
+                node = T.obj_set(node, 'parsed_parent_fingerprint', ppf)
+            _NODE_CACHE[ck] = node
+            return node
+        raise AnalysisError('node_term', '%s(key, chain_code, index, depth, testnet, parent) does not evaluate to one object with '
+                            'those fields: %s' % (cls.split('.')[-1], T.show(v, maxdepth=3)))
+    return T.obj(cls, dict(args, parsed_parent_fingerprint=ppf, parsed_version=T.NONE, children=T.lst([])))
 
 
 def prv_node(layout='32', name='k', **kw):
